@@ -84,6 +84,7 @@ func (h *OIDC) HandleCallback(w http.ResponseWriter, r *http.Request) {
 	userName := findUsernameInClaims(data)
 	if userName == "" {
 		http.Error(w, "no oidc claim for username found", http.StatusInternalServerError)
+		return
 	}
 
 	id.SetUserName(userName)
